@@ -68,22 +68,73 @@ Proof.
 Qed.
 
 (* C04/C06 — the fix: a command that refuses a non-synchronising literal, or whose discarded
-   line announced one, is the last one read on the connection, and a BYE is sent *)
+   line announced one, is the last one read on the connection, and a BYE is sent.  The tag must
+   be one the server answers at all: a tag containing "+" ends the connection before the command
+   is looked at (plus_tag_ends_silently below), so no BYE is written for it. *)
 Lemma refused_nonsync_closes : forall cfg f total s tag r1 r2 name r3,
-  dec_atom s = DOk tag r1 -> dec_sp r1 = DOk tt r2 -> dec_atom r2 = DOk name r3 ->
+  dec_atom s = DOk tag r1 -> has_plus tag = false ->
+  dec_sp r1 = DOk tt r2 -> dec_atom r2 = DOk name r3 ->
   bytes_eqb (ascii_upper name) (s2b "UID") = false ->
   let h := handle_cmd cfg (fs_conn f) name r3 in
   (h_close h = true \/ (snd (discard_line (h_crlf h) (h_rest h)) = true /\ h_cls h <> 0)) ->
   snd (read_command cfg f total s) = None /\
   exists outs, fs_out (fst (read_command cfg f total s)) = OBye :: outs.
 Proof.
-  intros cfg f total s tag r1 r2 name r3 H1 H2 H3 H4 h Hc.
-  unfold read_command. rewrite H1, H2, H3, H4. cbv zeta. fold h.
+  intros cfg f total s tag r1 r2 name r3 H1 Hp H2 H3 H4 h Hc. unfold has_plus in Hp.
+  unfold read_command. rewrite H1, H2, H3, Hp, H4. cbv zeta. fold h.
   destruct (discard_line (h_crlf h) (h_rest h)) as [rest ann]. cbn [snd] in Hc.
   assert (Hcl : h_close h || (ann && negb (h_cls h =? 0)) = true).
   { destruct Hc as [-> | [-> Hn]]; [reflexivity|]. apply N.eqb_neq in Hn. rewrite Hn. apply orb_true_r. }
   rewrite Hcl. rewrite orb_true_r. cbn [fst snd fs_out]. split; [reflexivity | eexists; reflexivity].
 Qed.
+
+(* the complementary case: a tag containing "+" ends the connection without any response,
+   whatever follows it *)
+Lemma plus_tag_ends_silently : forall cfg f total s tag r1 r2 name r3,
+  dec_atom s = DOk tag r1 -> has_plus tag = true ->
+  dec_sp r1 = DOk tt r2 -> dec_atom r2 = DOk name r3 ->
+  snd (read_command cfg f total s) = None /\
+  fs_out (fst (read_command cfg f total s)) = fs_out f /\
+  fs_calls (fst (read_command cfg f total s)) = fs_calls f.
+Proof.
+  intros cfg f total s tag r1 r2 name r3 H1 Hp H2 H3. unfold has_plus in Hp.
+  unfold read_command. rewrite H1, H2, H3, Hp. cbv zeta. cbn [fst snd fs_out fs_calls]. auto.
+Qed.
+
+(* without the hypothesis on the tag the statement above does not hold: "a+ DELETE {5000+}"
+   refuses a non-synchronising literal in its handler, yet no BYE is written *)
+Lemma refused_nonsync_closes_needs_plain_tag :
+  ~ (forall cfg f total s tag r1 r2 name r3,
+      dec_atom s = DOk tag r1 -> dec_sp r1 = DOk tt r2 -> dec_atom r2 = DOk name r3 ->
+      bytes_eqb (ascii_upper name) (s2b "UID") = false ->
+      let h := handle_cmd cfg (fs_conn f) name r3 in
+      (h_close h = true \/ (snd (discard_line (h_crlf h) (h_rest h)) = true /\ h_cls h <> 0)) ->
+      snd (read_command cfg f total s) = None /\
+      exists outs, fs_out (fst (read_command cfg f total s)) = OBye :: outs).
+Proof.
+  intros H.
+  specialize (H (mkFcfg true false false (fun _ => false) (fun _ => false))
+                (mkF (mkConn SAuth false) [] [] []) 19
+                (s2b "a+ DELETE {5000+}" ++ CRLF_)
+                (s2b "a+") (s2b " DELETE {5000+}" ++ CRLF_) (s2b "DELETE {5000+}" ++ CRLF_)
+                (s2b "DELETE") (s2b " {5000+}" ++ CRLF_)
+                eq_refl eq_refl eq_refl eq_refl).
+  cbv zeta in H. destruct H as [_ [outs Ho]]; [left; vm_compute; reflexivity|].
+  vm_compute in Ho. discriminate Ho.
+Qed.
+
+(* change (b): a literal header whose size is not a readable number and whose line ends with
+   "+}" is an error that closes the connection (it reaches read_command as h_close = true) *)
+Lemma unreadable_nonsync_size_closes : forall s r r',
+  dec_special (ch "{") s = DOk tt r -> dec_number64 r = DNo r' -> partial_header_nonsync r' = true ->
+  lit_header s = SErr (io_or_syntax r') true O r'.
+Proof. intros s r r' H1 H2 H3. unfold lit_header. rewrite H1, H2, H3. reflexivity. Qed.
+
+Example unreadable_nonsync_size_example :
+  rev (fs_out (run_stream (mkFcfg true false false (fun _ => false) (fun _ => false)) SAuth
+         (s2b "a1 DELETE {99999999999999999999+}" ++ CRLF_ ++ s2b "a2 NOOP" ++ CRLF_)))
+  = [OTagged (s2b "a1") 2; OBye].
+Proof. vm_compute. reflexivity. Qed.
 
 (* C06 — the serve loop terminates on every input: the fuel given by run_stream is never
    exhausted (more fuel changes nothing) *)
